@@ -464,6 +464,9 @@ func genSymC25(r *hlib.Rand, pool []string) string {
 
 func genLabelsC25(r *hlib.Rand, pool []string, max int, sep string) string {
 	n := r.Intn(max + 1)
+	if r.Chance(1, 6) {
+		n = 0 // empty label set
+	}
 	p := make([]string, n)
 	for i := range p {
 		p[i] = genSymC25(r, pool) + "~" + genSymC25(r, pool)
@@ -540,6 +543,12 @@ func genC25(c *hlib.Ctx) {
 		var toks []string
 		for t := 0; t < nten; t++ {
 			name := r.Pick([]string{"t", "t" + hlib.HexS("tenant-a"), "t" + hlib.HexS("b"), "t" + hlib.Hex(r.Bytes(3))})
+			for _, prev := range toks {
+				if prev == name {
+					c.Count("tenants:same-tenant-twice")
+					break
+				}
+			}
 			toks = append(toks, name)
 			for s := r.Intn(4); s > 0; s-- {
 				var ss, es, hs []string
@@ -547,12 +556,23 @@ func genC25(c *hlib.Ctx) {
 					ss = append(ss, fmt.Sprintf("%d:%d", genFloatBits(r), genI64(r)))
 				}
 				for i := r.Intn(3); i > 0; i-- {
-					es = append(es, fmt.Sprintf("%s:%d:%d", genLabelsC25(r, pool, 2, "."), genFloatBits(r), genI64(r)))
+					el := genLabelsC25(r, pool, 2, ".")
+					if el == "_" {
+						c.Count("exemplar-labels:empty")
+					}
+					es = append(es, fmt.Sprintf("%s:%d:%d", el, genFloatBits(r), genI64(r)))
 				}
 				for i := r.Intn(3); i > 0; i-- {
 					hs = append(hs, genHistC25(c, stream == 1, stream == 2))
 				}
-				toks = append(toks, strings.Join([]string{genLabelsC25(r, pool, 5, ","), joinU(ss, ","), joinU(es, ","), joinU(hs, ",")}, "|"))
+				sl := genLabelsC25(r, pool, 5, ",")
+				if sl == "_" {
+					c.Count("series-labels:empty")
+					if len(hs) > 0 {
+						c.Count("series-labels:empty-with-histograms")
+					}
+				}
+				toks = append(toks, strings.Join([]string{sl, joinU(ss, ","), joinU(es, ","), joinU(hs, ",")}, "|"))
 				c.Count(fmt.Sprintf("samples:%d", len(ss)))
 				c.Count(fmt.Sprintf("exemplars:%d", len(es)))
 				c.Count(fmt.Sprintf("hists:%d", len(hs)))
